@@ -8,7 +8,7 @@ from ..lib import Facts, calls_in, len_eq, own_nodes, stmt_of
 from ..model import AnalysisError, FuncInfo
 from ..report import Run
 from ..spec import canon, drop_sites, spec_function
-from ..terms import TermCtx, contains, show, strip_sites, strip_visits, unphi_terms
+from ..terms import root_of, TermCtx, contains, show, strip_sites, strip_visits, unphi_terms
 from ..visitors import LAMBDA_ARG_KINDS
 
 EXPLANATION = (
@@ -34,7 +34,7 @@ def make_Select(source, selection):
 '''
 SPEC_LOOKUP = '''
 def lookup_name(self, name, default=None):
-    for frames in reversed(self._arg_transformer):
+    for frames in reversed(self.FRAMES_ATTR):
         if name in frames:
             return frames[name]
     return default
@@ -95,9 +95,9 @@ def check(run: Run) -> None:
     fa = ctx.analysis(vn)
     rt = strip_sites(fa.return_term())
     nodep = ("param", vn.pos_params[1])
-    stack = ("attr", ("param", vn.pos_params[0]), "_arg_stack")
+    stack = ("attr", ("param", vn.pos_params[0]), _init_attr(ctx, m, cls, lambda t: t[0] in ("app", "new") and "argument_stack" in show(t)[:60], "the substitution stack of simplify_chained_calls"))
     lk = m.find_func("lookup_name", in_class="argument_stack")
-    lk_spec = spec_function(m, SPEC_LOOKUP, "func_adl.ast.call_stack", "argument_stack")
+    lk_spec = spec_function(m, SPEC_LOOKUP.replace("FRAMES_ATTR", _frames_attr(ctx, m)), "func_adl.ast.call_stack", "argument_stack")
     want = canon(ctx.analysis(lk_spec).return_term(), lk_spec.pos_params)
     got = canon(ctx.analysis(lk).return_term(), lk.pos_params)
     run.check(drop_sites(got) == drop_sites(want), "C02.R3b", lk, lk.node, "lookup_name searches frames innermost-first and falls back to the default", f"lookup_name computes {show(got)[:160]}; expected innermost-first search {show(want)[:120]}: a shadowed outer definition can win", term=show(got))
@@ -210,25 +210,40 @@ def _check_make_args_unique(run: Run, ctx, m) -> None:
     if vl is None or vn is None:
         raise AnalysisError("replace_args lost visit_Lambda / visit_Name")
     fl = ctx.analysis(vl)
-    pushes = [c for c in calls_in(vl) if isinstance(c.func, ast.Attribute) and c.func.attr == "append"]
-    pops = [c for c in calls_in(vl) if isinstance(c.func, ast.Attribute) and c.func.attr == "pop"]
+    def _bulk(c):
+        """(CFG anchor, term whose length is the number of stack entries moved) for a push / pop operation"""
+        cfg_ = fl.cfg
+        if c.func.attr == "extend" and len(c.args) == 1:
+            return cfg_.node_of(c), strip_sites(fl.term_of(c.args[0]))
+        lp_ = _loop_head(cfg_, c, vl)
+        if lp_ is None:
+            return None
+        return cfg_.node_of(lp_), strip_sites(fl.term_of(lp_.iter, cfg_.node_of(lp_)))
+
+    stack_ops = [c for c in calls_in(vl) if isinstance(c.func, ast.Attribute) and c.func.attr in ("append", "extend", "pop") and strip_sites(fl.term_of(c.func.value))[0] == "attr" and strip_sites(fl.term_of(c.func.value))[1] == ("param", vl.pos_params[0])]
+    by_stack = {}
+    for c in stack_ops:
+        by_stack.setdefault(strip_sites(fl.term_of(c.func.value)), []).append(c)
+    # the renaming stack is the attribute that is both pushed to and popped from
+    cands = [v for v in by_stack.values() if any(c.func.attr == "pop" for c in v)]
+    ops = cands[0] if len(cands) == 1 else []
+    pushes = [c for c in ops if c.func.attr in ("append", "extend")]
+    pops = [c for c in ops if c.func.attr == "pop"]
     gvs = [c for c in calls_in(vl) if isinstance(c.func, ast.Attribute) and c.func.attr == "generic_visit"]
     ok_order = len(pushes) == 1 and len(pops) == 1 and len(gvs) == 1
+    pb = qb = None
     if ok_order:
         cfg = fl.cfg
-        pn, gn, qn = cfg.node_of(pushes[0]), cfg.node_of(gvs[0]), cfg.node_of(pops[0])
-        # push loop before generic_visit, pop loop after, on every path
-        ok_order = _loop_head(cfg, pushes[0], vl) is not None and _loop_head(cfg, pops[0], vl) is not None
+        gn = cfg.node_of(gvs[0])
+        pb, qb = _bulk(pushes[0]), _bulk(pops[0])
+        ok_order = pb is not None and qb is not None
         if ok_order:
-            ok_order = cfg.dominates(cfg.node_of(_loop_head(cfg, pushes[0], vl)), gn) and cfg.dominates(gn, cfg.node_of(_loop_head(cfg, pops[0], vl))) and cfg.postdominates(cfg.node_of(_loop_head(cfg, pops[0], vl)), gn)
+            ok_order = cfg.dominates(pb[0], gn) and cfg.dominates(gn, qb[0]) and cfg.postdominates(qb[0], gn) and pb[0] is not gn and qb[0] is not gn
     run.check(ok_order, "C02.R2", vl, vl.node, "renaming frames are pushed before and popped after the body is visited, on every path", "replace_args.visit_Lambda does not pair its pushes and pops around generic_visit: renamings leak out of (or are missing inside) the lambda's scope")
     if ok_order:
-        lp_push = _loop_head(fl.cfg, pushes[0], vl)
-        lp_pop = _loop_head(fl.cfg, pops[0], vl)
-        n_push = strip_sites(fl.term_of(lp_push.iter, fl.cfg.node_of(lp_push)))
-        n_pop = strip_sites(fl.term_of(lp_pop.iter, fl.cfg.node_of(lp_pop)))
+        n_push, n_pop = pb[1], qb[1]
         same_len = _len_source(n_push) == _len_source(n_pop) and _len_source(n_push) is not None
-        run.check(same_len, "C02.R2", vl, lp_pop, "as many pops as pushes", f"pushes iterate over {show(n_push)[:80]} but pops over {show(n_pop)[:80]}")
+        run.check(same_len, "C02.R2", vl, stmt_of(pops[0]), "as many pops as pushes", f"pushes iterate over {show(n_push)[:80]} but pops over {show(n_pop)[:80]}")
     # fresh names for the first lambda, identity (shadow) for nested ones
     fresh = [c for c in calls_in(vl) if isinstance(c.func, ast.Name) and c.func.id == "arg_name"]
     run.check(len(fresh) >= 1, "C02.R2", vl, vl.node, "outermost lambda gets arg_name() names", "replace_args no longer draws new names from arg_name()")
@@ -276,18 +291,38 @@ def _len_source(t):
 
 
 def _check_beta(run: Run, ctx, m, cls, vc: FuncInfo) -> None:
+    from ..lib import call_events, site_owner
+
+    # the reduction may live in visit_Call or in a private helper it hands the call node to
+    vc0 = vc
+    vc, inv = site_owner(m, ctx, vc0, "stack_frame")
+    nodep = ("param", vc0.pos_params[1])
+    if vc is not vc0:
+        if nodep not in inv:
+            raise AnalysisError(f"{vc.name} does not receive the call node of visit_Call")
+        nodep = inv[nodep]
     fa = ctx.analysis(vc)
     cfg = fa.cfg
-    nodep = ("param", vc.pos_params[1])
     withs = [n for n in own_nodes(vc) if isinstance(n, ast.With) and any(isinstance(it.context_expr, ast.Call) and isinstance(it.context_expr.func, ast.Name) and it.context_expr.func.id == "stack_frame" for it in n.items)]
-    defines = [c for c in calls_in(vc) if isinstance(c.func, ast.Attribute) and c.func.attr == "define_name"]
-    run.check(len(withs) == 1 and len(defines) >= 1, "C02.R3b", vc, vc.node, "visit_Call reduces inside one `with stack_frame(..)`", f"{len(withs)} stack_frame blocks / {len(defines)} define_name calls in visit_Call")
+    def_events = call_events(ctx, vc, lambda nm: nm == "define_name")
+    run.check(len(withs) == 1 and len(def_events) >= 1, "C02.R3b", vc, vc.node, "visit_Call reduces inside one `with stack_frame(..)`", f"{len(withs)} stack_frame blocks / {len(def_events)} define_name calls in visit_Call")
     if len(withs) != 1:
         return
     w = withs[0]
     inside = {id(x) for x in ast.walk(w)}
+
+    class _D:
+        """a define_name call, seen from the function that owns the frame"""
+
+        def __init__(self, ev):
+            self.ev = ev
+            self.args = ev.args
+            self.at = stmt_of(ev.call) if ev.owner is vc else ev.site.stmt
+            self.inside = (id(ev.call) in inside) if ev.owner is vc else (ev.site.stmt is not None and id(ev.site.stmt) in inside)
+
+    defines = [_D(e) for e in def_events]
     for d in defines:
-        run.check(id(d) in inside, "C02.R3b", vc, stmt_of(d), "define_name happens inside the stack frame", "a parameter is defined outside `with stack_frame`: the binding outlives the call being reduced")
+        run.check(d.inside, "C02.R3b", vc, d.at, "define_name happens inside the stack frame", "a parameter is defined outside `with stack_frame`: the binding outlives the call being reduced")
     # R3a: arguments are visited, and visited before the callee's frame is pushed
     body_t = ("attr", ("attr", nodep, "func"), "body")
     arg_elem = ("visit", ("elem", ("attr", nodep, "args")))
@@ -297,15 +332,15 @@ def _check_beta(run: Run, ctx, m, cls, vc: FuncInfo) -> None:
             run.check(t == body_t, "C02.R3a", vc, stmt_of(c), "inside the callee's frame only the lambda body is visited", f"{show(t)[:80]} is visited inside the callee's frame: if it is (part of) an argument, names in it that coincide with parameters already defined are resolved against the callee's bindings instead of the caller's", "arg_asts = [self.visit(a) for a in call_node.args] before `with stack_frame`", show(t))
     for d in defines:
         if len(d.args) == 2:
-            vt = strip_sites(fa.term_of(d.args[1]))
-            run.check(contains(vt, lambda s: s == arg_elem), "C02.R3a", vc, stmt_of(d), "the value bound to a parameter is a visited argument", f"parameter bound to {show(vt)[:140]}: the call's arguments are not visited before substitution (outer substitutions are not applied to them)", "self.visit(a) for a in call_node.args", show(vt))
-            nt = strip_sites(fa.term_of(d.args[0]))
+            vt = d.args[1]
+            run.check(contains(vt, lambda s: s == arg_elem), "C02.R3a", vc, d.at, "the value bound to a parameter is a visited argument", f"parameter bound to {show(vt)[:140]}: the call's arguments are not visited before substitution (outer substitutions are not applied to them)", "self.visit(a) for a in call_node.args", show(vt))
+            nt = d.args[0]
             ok_n = nt[0] == "attr" and nt[2] == "arg" and contains(nt, lambda s: s == ("attr", ("attr", ("attr", nodep, "func"), "args"), "args"))
-            run.check(ok_n, "C02.R3a", vc, stmt_of(d), "the name bound is a parameter of the called lambda", f"define_name binds {show(nt)[:100]}")
+            run.check(ok_n, "C02.R3a", vc, d.at, "the name bound is a parameter of the called lambda", f"define_name binds {show(nt)[:100]}")
             # positional pairing: zip(params, visited args) in the same order
             zipped = [x for x in unphi_terms(vt)]
             pair_ok = contains(vt, lambda s: s[0] == "app" and s[1] == ("global", "builtins.zip") and len(s[2]) == 2 and s[2][0] == ("attr", ("attr", ("attr", nodep, "func"), "args"), "args")) and vt[0] == "index" and vt[2] == 1 and nt[1][0] == "index" and nt[1][2] == 0
-            run.check(pair_ok, "C02.R3a", vc, stmt_of(d), "parameters and arguments are paired positionally (zip(params, args))", f"parameters and arguments are not paired as zip(lambda.args.args, visited args): name {show(nt)[:60]} <- {show(vt)[:80]}")
+            run.check(pair_ok, "C02.R3a", vc, d.at, "parameters and arguments are paired positionally (zip(params, args))", f"parameters and arguments are not paired as zip(lambda.args.args, visited args): name {show(nt)[:60]} <- {show(vt)[:80]}")
     # body visited inside the frame and returned
     for s, n in fa.returns():
         t = strip_sites(fa.term_of(s.value, n)) if s.value is not None else ("const", None)
@@ -429,7 +464,8 @@ def _check_call_stack(run: Run, ctx, m) -> None:
         for c in calls_in(meth):
             if isinstance(c.func, ast.Attribute) and c.func.attr.endswith("_stack_frame"):
                 t = strip_sites(fa.term_of(c.func.value))
-                run.check(t == ("attr", ("param", meth.pos_params[0]), "_arg_stack"), "C02.R3b", meth, stmt_of(c), f"{c0} acts on the stack handed to stack_frame", f"{c0} acts on {show(t)}")
+                held = _init_attr(ctx, m, sf, lambda t_: t_ == ("param", m.find_method(sf, "__init__").pos_params[1]), "the stack held by stack_frame")
+                run.check(t == ("attr", ("param", meth.pos_params[0]), held), "C02.R3b", meth, stmt_of(c), f"{c0} acts on the stack handed to stack_frame", f"{c0} acts on {show(t)}")
     ex_rt = strip_sites(ctx.analysis(ex).return_term())
     run.check(ex_rt == ("const", None) or ex_rt == ("const", False), "C02.R3b", ex, ex.node, "__exit__ does not swallow exceptions", f"__exit__ returns {show(ex_rt)}: exceptions inside a frame are suppressed")
     _check_stack_methods(run, ctx, m, st)
@@ -453,10 +489,36 @@ def _check_stack_frame_generator(run: Run, ctx, fi: FuncInfo) -> None:
     run.check(ok and in_finally, "C02.R3b", fi, fi.node, "frame pushed before the yield and popped in a finally around it", "the generator form of stack_frame does not pop the frame in a `finally`: when an exception (e.g. the permitted FuncADLIndexError) leaves the with-block the frame stays on the stack and later queries on the same simplifier see stale bindings", "push; try: yield; finally: pop")
 
 
+def _init_attr(ctx, m, cls, pred, what: str) -> str:
+    """name of the one attribute that cls.__init__ (through the MRO) initialises with a value satisfying pred"""
+    init = m.find_method(cls, "__init__")
+    if init is None:
+        raise AnalysisError(f"{cls.name} has no __init__: cannot identify {what}")
+    fa = ctx.analysis(init)
+    names = []
+    for n in own_nodes(init):
+        tg = None
+        if isinstance(n, ast.Assign) and len(n.targets) == 1:
+            tg = n.targets[0]
+        elif isinstance(n, ast.AnnAssign) and n.value is not None:
+            tg = n.target
+        if isinstance(tg, ast.Attribute) and isinstance(tg.value, ast.Name) and tg.value.id == init.pos_params[0] and pred(strip_sites(fa.term_of(n.value))):
+            names.append(tg.attr)
+    if len(set(names)) != 1:
+        raise AnalysisError(f"cannot identify {what}: candidates {sorted(set(names))}")
+    return names[0]
+
+
+def _frames_attr(ctx, m) -> str:
+    st = m.find_class("argument_stack", in_module="func_adl.ast.call_stack")
+    return _init_attr(ctx, m, st, lambda t: t == ("list", (("dict", ()),)), "the frame list of argument_stack")
+
+
 def _check_stack_methods(run: Run, ctx, m, st) -> None:
     push, pop, define = st.methods["push_stack_frame"], st.methods["pop_stack_frame"], st.methods["define_name"]
     selfp = ("param", push.pos_params[0])
-    frames = ("attr", selfp, "_arg_transformer")
+    FR = _frames_attr(ctx, m)
+    frames = ("attr", selfp, FR)
     fa = ctx.analysis(push)
     apps = [c for c in calls_in(push) if isinstance(c.func, ast.Attribute) and c.func.attr == "append"]
     ok = len(apps) == 1 and strip_sites(fa.term_of(apps[0].func.value)) == frames and strip_sites(fa.term_of(apps[0].args[0])) == ("dict", ())
@@ -467,16 +529,16 @@ def _check_stack_methods(run: Run, ctx, m, st) -> None:
     fp = ctx.analysis(pop)
     if len(dels) == 1 and not pops:
         tg = dels[0].targets[0]
-        ok = isinstance(tg, ast.Subscript) and strip_sites(fp.term_of(tg.value)) == ("attr", ("param", pop.pos_params[0]), "_arg_transformer") and isinstance(tg.slice, ast.UnaryOp) and isinstance(tg.slice.operand, ast.Constant) and tg.slice.operand.value == 1
+        ok = isinstance(tg, ast.Subscript) and strip_sites(fp.term_of(tg.value)) == ("attr", ("param", pop.pos_params[0]), FR) and isinstance(tg.slice, ast.UnaryOp) and isinstance(tg.slice.operand, ast.Constant) and tg.slice.operand.value == 1
     elif len(pops) == 1 and not dels:
-        ok = strip_sites(fp.term_of(pops[0].func.value)) == ("attr", ("param", pop.pos_params[0]), "_arg_transformer") and (not pops[0].args or (isinstance(pops[0].args[0], ast.UnaryOp) and getattr(pops[0].args[0].operand, "value", None) == 1))
+        ok = strip_sites(fp.term_of(pops[0].func.value)) == ("attr", ("param", pop.pos_params[0]), FR) and (not pops[0].args or (isinstance(pops[0].args[0], ast.UnaryOp) and getattr(pops[0].args[0].operand, "value", None) == 1))
     run.check(ok, "C02.R3b", pop, pop.node, "pop removes the innermost frame", "pop_stack_frame does not remove exactly the innermost frame")
     fd = ctx.analysis(define)
     stores = [n for n in own_nodes(define) if isinstance(n, ast.Assign) and isinstance(n.targets[0], ast.Subscript)]
     ok = False
     if len(stores) == 1:
         tg = stores[0].targets[0]
-        ok = strip_sites(fd.term_of(tg.value)) == ("index", ("attr", ("param", define.pos_params[0]), "_arg_transformer"), -1) and strip_sites(fd.term_of(tg.slice)) == ("param", define.pos_params[1]) and strip_sites(fd.term_of(stores[0].value)) == ("param", define.pos_params[2])
+        ok = strip_sites(fd.term_of(tg.value)) == ("index", ("attr", ("param", define.pos_params[0]), FR), -1) and strip_sites(fd.term_of(tg.slice)) == ("param", define.pos_params[1]) and strip_sites(fd.term_of(stores[0].value)) == ("param", define.pos_params[2])
     if ok:
         ok = fd.cfg.postdominates(fd.cfg.node_of(stores[0]), fd.cfg.entry)
     run.check(ok, "C02.R3b", define, define.node, "define_name writes frames[-1][name] = val, unconditionally", "define_name does not (always) define the name in the innermost frame: a definition that is skipped for some values (e.g. a name bound to itself) no longer shadows an outer binding of the same name")
@@ -499,7 +561,8 @@ def _check_shadow_lambda(run: Run, ctx, m, vl: FuncInfo, prop: str) -> None:
         return
     gv = gvs[0]
     withs = [n for n in own_nodes(vl) if isinstance(n, ast.With)]
-    defines = [c for c in calls_in(vl) if isinstance(c.func, ast.Attribute) and c.func.attr in ("define_name", "append")]
+    selfp_ = ("param", vl.pos_params[0])
+    defines = [c for c in calls_in(vl) if isinstance(c.func, ast.Attribute) and (c.func.attr == "define_name" or (c.func.attr == "append" and fa.cfg.has_node(c) and root_of(strip_sites(fa.term_of(c.func.value))) == selfp_))]
     cfg = fa.cfg
     if withs:
         w = withs[0]
